@@ -1118,3 +1118,28 @@ Proof.
   - intros d i j H. cbn [list_op]. unfold p_delitem. rewrite H. reflexivity.
   - intros d i j H. cbn [list_op]. unfold l_pop, p_delitem. rewrite H. reflexivity.
 Qed.
+
+(* ------------------------------------------------------------------ clear empties the list *)
+Lemma length_zdel d j : 0 <= j < zlen d -> length (zdel d j) = (length d - 1)%nat.
+Proof.
+  unfold zlen, zdel. intros H. rewrite app_length, firstn_length, skipn_length. lia.
+Qed.
+Lemma clear_loop_empty tb fuel : forall d acc, (length d < fuel)%nat -> fst (clear_loop tb fuel d acc) = [].
+Proof.
+  induction fuel as [|f IH]; intros d acc H; [lia|]. cbn [clear_loop]. unfold l_pop, p_delitem.
+  destruct d as [|a t].
+  - reflexivity.
+  - assert (norm_index (zlen (a :: t)) (-1) = Some (zlen (a :: t) - 1)) as E.
+    { assert (0 < zlen (a :: t)) as Hp by (unfold zlen; cbn [length]; lia).
+      unfold norm_index. change (-1 <? 0) with true. cbv iota.
+      destruct (0 <=? -1 + zlen (a :: t)) eqn:E1; [|apply Z.leb_gt in E1; lia].
+      destruct (-1 + zlen (a :: t) <? zlen (a :: t)) eqn:E2; [|apply Z.ltb_ge in E2; lia].
+      cbn [andb]. assert (-1 + zlen (a :: t) = zlen (a :: t) - 1) as -> by lia. reflexivity. }
+    rewrite E. apply IH.
+    rewrite length_zdel; [cbn [length] in *; lia|]. unfold zlen. cbn [length]. lia.
+Qed.
+Theorem clear_spec tb d d' es r : l_clear tb d = LOk d' es r -> d' = [].
+Proof.
+  unfold l_clear. pose proof (clear_loop_empty tb (S (length d)) d [] (Nat.lt_succ_diag_r _)) as H.
+  destruct (clear_loop tb (S (length d)) d []) as [d1 es1]. cbn [fst] in H. intros E. inversion E. subst. reflexivity.
+Qed.
